@@ -1091,7 +1091,9 @@ def nested_accepted_runs(c0: int, c1: int, c2: int, c3: int, c4: int, c5: int, c
 # states NAMED like the fields of the language: a checker that treats a member by its name (skipping "Result",
 # recursing into "States", ...) must still treat it as a state when it is a member of a States object
 KEYWORD_NAMES = ["Result", "Parameters", "ItemSelector", "ResultSelector", "Next", "Default", "States", "Branches", "Catch", "Retry",
-                 "Choices", "Iterator", "ItemProcessor", "Type", "End", "StartAt", "Comment", "InputPath", "Variable", "And"]
+                 "Choices", "Iterator", "ItemProcessor", "Type", "End", "StartAt", "Comment", "InputPath", "Variable", "And",
+                 # names that are not identifiers: a look-up that pastes the name into a path expression goes wrong on these
+                 "Step 1.2", "retry[1]", "a;b", "1", "*", "a.b", "$", "'q'", "x,y", ".."]
 DEFECTS = ["none", "dangling Next", "dangling Default", "dangling Choice Next", "dangling Catch Next", "branch StartAt dangling",
            "branch re-uses a top-level state name", "branch Next dangling", "iterator re-uses the state's own name"]
 
